@@ -20,6 +20,11 @@ import (
 //               Consume again (join, sync, claims ...)
 //   nocoord     FindCoordinator answers ConsumerCoordinatorNotAvailable: Consume fails, is called again
 //   silentjoin  JoinGroup is never answered (read timeout)
+//   race        (needs the hook of hooks/c12_group_handleerror.patch; without it an ordinary run) the partition
+//               consumer reports errors; the first error forwarder that has passed handleError's closed check is
+//               held there, Close is called and runs to completion, then the forwarder continues: on the pinned
+//               tree it sends on the closed c.errors (the process dies: plain goroutine); with errorsLock Close
+//               waits for it
 //
 // parameters: np (claims), nmsg, buf (ChannelBufferSize), reterr, nerr, hb, shared (the group uses a client the
 // application made and closes afterwards).
@@ -36,6 +41,7 @@ type grpScript struct {
 	beats    int32
 	heldOnce int32
 	gen      int32
+	fetches  int32
 	nmsg     int
 }
 
@@ -121,6 +127,13 @@ func (s *grpScript) handler() func(string, interface{}) interface{} {
 		case "FetchRequest":
 			req := body.(*sarama.FetchRequest)
 			res := &sarama.FetchResponse{Version: req.Version}
+			if s.spec.Scen == "race" && atomic.AddInt32(&s.fetches, 1) >= 2 {
+				// an error code the partition consumer passes on to its Errors() channel (and redispatches)
+				for _, p := range sarama.VerifC12FetchPartitions(req, topic) {
+					res.AddError(topic, p, sarama.ErrBrokerNotAvailable)
+				}
+				return sarama.VerifC12Hold{Inner: res, Gate: timerGate(3 * time.Millisecond)}
+			}
 			empty := true
 			for _, p := range sarama.VerifC12FetchPartitions(req, topic) {
 				off := sarama.VerifC12FetchOffset(req, topic, p)
@@ -193,6 +206,24 @@ func runGroup(spec Spec) Result {
 	}
 	rc.arm()
 	rc.startSettle(settle)
+	closeReturned := make(chan struct{})
+	if spec.Scen == "race" {
+		var held int32
+		sarama.VerifSetObserver(func(kind string, args ...interface{}) {
+			if kind != "cg.handleError.checked" || !atomic.CompareAndSwapInt32(&held, 0, 1) {
+				return
+			}
+			rc.note("hook: a handleError caller is held between its closed check and its send")
+			rc.fire()
+			select {
+			case <-closeReturned:
+				time.Sleep(5 * time.Millisecond)
+			case <-time.After(1500 * time.Millisecond):
+				rc.note("hook: Close did not return while the caller was held (it waits for it)")
+			}
+		})
+		defer sarama.VerifSetObserver(nil)
+	}
 
 	// single logger: everybody reports to the observer; a call is logged (and acknowledged) before it is made
 	notes := make(chan note)
@@ -231,6 +262,7 @@ func runGroup(spec Spec) Result {
 		report("Call 0")
 		rc.markInvoked()
 		e := g.Close()
+		close(closeReturned)
 		atomic.StoreInt32(&closedFlag, 1)
 		r := 0
 		if e != nil {
